@@ -5,7 +5,31 @@ import os
 VERIF = os.path.dirname(os.path.dirname(os.path.abspath(__file__)))
 ALL = [f"C{i:02d}" for i in range(1, 21)]
 
+INTERIM = ("INTERIM: the unbounded refinement/ordering/conservation theorems are being completed; until they are integrated the property "
+           "rests on the theorems listed plus correspondence and the replay of the implementation's own output against the property text. ")
+
 CLAIMS = {
+    "C01": {
+        "text": "Faithful Coq model of the matcher (heap with duplicate entries, partial-amount cache, from/to index, lot in flight) vs greedy best-ranked-lot specification; "
+                "theorems: generated sort keys = ranking of the property text, method kinds, unconditional re-push; every implementation run is compared with the extracted model "
+                "on (event, lot) sequences and replayed against the property text (best-ranked available lot at every fraction).",
+        "note": "heapq, AVL tree, list.sort stability are library behaviour; amounts on the 1e-11 grid; finding F13 (same instant, different local year) is listed in KNOWN_FINDINGS.txt.",
+        "technique": "Coq proof (refinement to greedy spec) + differential correspondence + replay oracle", "design_ref": "6 C01"},
+    "C02": {
+        "text": "Conservation theorems on the greedy specification (positive fractions, per-event sums, no lot overspent, failure exactly when lots so far cannot cover, sell-all) transferred by refinement; "
+                "implementation runs (valid, over-spending, sell-everything extensions) compared with the extracted model and with an independent conservation oracle.",
+        "note": "amounts on the 1e-11 grid below 1e18; a supplied crypto_out_with_fee is taken as the amount leaving the holder.",
+        "technique": "Coq proof + differential correspondence + conservation oracle", "design_ref": "6 C02"},
+    "C03": {
+        "text": "Coq theorems over the model regenerated from entry_types.py and the three transaction classes: the taxable-event list is a duplicate-free permutation of exactly the earn-typed acquisitions, "
+                "all out-transactions and the transfers with positive fiat fee; amount and kind are the transaction's; tied by the translator and by comparing taxable events / income fractions of every run.",
+        "note": "transfer fees whose fiat value rounds to 0 at 13 decimals are finding F8 (KNOWN_FINDINGS.txt).",
+        "technique": "Coq proof over translated model + differential correspondence", "design_ref": "6 C03"},
+    "C09": {
+        "text": "Coq theorem spec_prefix_stable: the matching of events <= T is a prefix of the matching of any extension dated after T (unbounded, any continuation); metamorphic runs of the implementation "
+                "(prefix vs full history; -t D vs truncated history) compared with each other and with the model.",
+        "note": "to-date equivalence needs local dates monotone in time (finding F9); refinement model = spec is proved separately.",
+        "technique": "Coq proof + metamorphic differential correspondence", "design_ref": "6 C09"},
     "C05": {
         "text": "Coq theorems (C05.v) over the model regenerated from gain_loss.py and the country plugins on every run: flag = (instant difference >= period*24h), "
                 "income always short, independence from offsets, 365 for US/ES, never for JP/IE within Python's date range, configured value for generic; "
